@@ -415,6 +415,10 @@ class ElementNode(XmlNode):
             return False
 
         if self.xsi_nil and not text:
+            if var.tokens:
+                # An empty token list, not None: leave it to the field default
+                return False
+
             value = None
         else:
             value = ParserUtils.parse_var(
